@@ -93,6 +93,22 @@ template <class Tr> struct Harness {
         sc.maxiter = mi_mode == 0 ? static_cast<unsigned>(t.u(1, 20)) : mi_mode == 1 ? static_cast<unsigned>(t.u(0, 200)) : 100u;
         if (sc.maxiter == 0) sc.check_after = false;
         double tol_drawn = t.logu(1e-12, 1e-2);
+        // ---- call form (read last): (i) solve(rhs, x), or (ii) solve(A2, rhs, x) with A2 = A with every diagonal entry / block
+        // multiplied by 1 + delta_i, delta_i in [0,1): same family (dominance only grows), preconditioner still built for A.
+        // From here on As, D, kappa1 describe the system that is solved.
+        int call_mode = static_cast<int>(t.u(0, 3)); uint64_t pseed = static_cast<uint64_t>(t.u(0, 0xffffffffLL));
+        const bool other = call_mode >= 2;
+        Csr<V> A2 = A;
+        if (other) {
+            for (ptrdiff_t i = 0; i < n; ++i) for (ptrdiff_t j = A2.ptr[i]; j < A2.ptr[i + 1]; ++j) if (A2.col[j] == i) {
+                uint64_t h = (static_cast<uint64_t>(i) + pseed) * 0x9E3779B97F4A7C15ULL; h ^= h >> 29; h *= 0xBF58476D1CE4E5B9ULL; h ^= h >> 32;
+                A2.val[j] = (1.0 + static_cast<double>(h & 0xffffff) / 16777216.0) * A2.val[j];
+            }
+            As = expand(A2); D = dense(As); lu.compute(D); Di = lu.inverse(); kappa1 = norm1(D) * norm1(Di);
+            r0 = static_cast<double>(true_relres(As, fs, expand(x0))); G = std::max(1.0, r0);
+        }
+        c.label(other ? "call:solve(A2,rhs,x)" : "call:solve(rhs,x)");
+        if (other) c.label(xkind == 2 ? "A2:x0!=0" : "A2:x0==0");
 
         c.desc << "truthful<" << Tr::name() << "> " << gm.g.family << " n=" << n << " kind=" << kind << " kappa1=" << kappa1 << " f=" << fkind << " x0=" << xkind
                << " | " << (amg_class ? std::string("amg ") + coars_name[cfg.coars] + "+" + relax_name[cfg.relax] + " npre=" + std::to_string(cfg.npre) + " npost=" + std::to_string(cfg.npost) + " ncycle=" + std::to_string(cfg.ncycle) + " coarse_enough=" + std::to_string(cfg.coarse_enough) : std::string("relaxation ") + relax_name[cfg.relax]);
@@ -145,7 +161,8 @@ template <class Tr> struct Harness {
         std::unique_ptr<AmgSolver> sa; std::unique_ptr<RelSolver> sr;
         try {
             if (amg_class) sa.reset(new AmgSolver(*Acrs, prm)); else sr.reset(new RelSolver(*Acrs, prm));
-            std::tie(iters, reported) = amg_class ? (*sa)(f, x) : (*sr)(f, x);
+            if (other) { auto A2crs = to_crs<V>(A2); std::tie(iters, reported) = amg_class ? (*sa)(*A2crs, f, x) : (*sr)(*A2crs, f, x); }
+            else std::tie(iters, reported) = amg_class ? (*sa)(f, x) : (*sr)(f, x);
         } catch (const std::runtime_error &e) { c.label(std::string("solve-threw:") + e.what()); return; }
 
         VF_REQUIRE(iters <= sc.iter_bound(), "iterations " << iters << " exceed maxiter=" << sc.maxiter << (sc.type == BICGSTABL ? " + L - 1" : ""));
